@@ -29,7 +29,7 @@ CHECKS["C20"] = ("histspace", "model_checking",
    "the walker uses only the public read API of Graph; bound: see evidence",
    "explicit-state exploration of operation sequences on the implementation, invariant checked in every state", "§5 C20")
 CHECKS["C11"] = ("sched", "model_checking",
-   "stateless model checking of the real message loop and the real per-request worker threads under a controlled scheduler: for every client script up to the bound, all interleavings of loop steps and worker steps (start / computing-with-read-access / computed / responded / exit) are executed on the real main_loop, one actor at a time, with prefix replay; each execution is checked against fresh-server answers (linearisation: a request is answered from a state at or after the notifications that precede it; final state = last text sent; one response per request)",
+   "stateless model checking of the real message loop and the real per-request worker threads under a controlled scheduler: for every client script up to the bound, all interleavings of loop steps and worker steps (start / computing-with-read-access / computed / responded / exit) and of client sends that pile up in the inbox behind a loop that waits for write access are executed on the real main_loop, one actor at a time, with prefix replay; each execution is checked against fresh-server answers (linearisation: a request is answered from a state at or after the notifications that precede it; final state = last text sent; one response per request; a released worker that makes no progress is a deadlock)",
    "scheduling points are the verif-hooks events plus thread join; worker-worker steps are treated as commuting (handlers only read the server); rayon inside handlers is not scheduled",
    "stateless model checking (DFS over schedules with prefix replay and a sleep-set style partial-order reduction) of the implementation under a hook-driven cooperative scheduler", "§5 C11")
 CHECKS["C12"] = ("reqs", "model_checking",
